@@ -35,6 +35,15 @@ CLAIMS = {
  "C14": ("exploration", "logical-clock ordering oracle: Rflush arrival vs enter/exit of the flushed request's backend calls, over every order of 4-event scripts with gates",
          "13 kinds of request A (incl. multi-component walks parked at each component, renames parked in RenameAt and in Renamed, clunk parked in Close) are parked in the backend with an unrelated B; all 24 orders of {send Tflush(A), release A, release B, unrelated traffic}, plus two flushes for one tag and chains. Reply arrivals and backend enter/exit share one logical clock: every Rflush must be later than the exit of every call made on A's behalf and no such call may begin after it; A gets exactly one reply; flushes of idle/answered/own/NOTAG tags are answered while B is still parked.",
          "Calls are attributed to A by construction; reply stamps are taken when the peer parsed the frame (never earlier than the send), so timing can only reduce sensitivity.", "DESIGN.md section 3 C14"),
+ "C04": ("exploration", "executable session model (sets of acceptable outcomes) vs a real server at a lock-step raw peer: bounded-exhaustive breadth-first over (model state, request) edges + long PRNG sequences with fid-table probes after every step",
+         "Breadth-first to depth 4 (thorough 5) after attach over ~75 requests, every (state, request) edge executed on a fresh server and judged by the model: unbound fid -> EBADF without backend call, bind-on-success with replace-and-release, clunk/remove always unbind, create rebinding, open-once/openable types/EISDIR, EINVAL unopened / EPERM wrong mode, xattr sub-protocols, EBUSY/EINVAL on opened directory fids, Tauth ENOSYS, auth-fid attach EINVAL; forwarded requests must answer with the errno of the failing backend call or the success type. PRNG sequences of 150-1500 requests; after each step Tgetattr on every small fid (EBADF iff unbound).",
+         "internal/model is the reference (written from the statement); requests whose outcome the statement leaves open are not sent; memfs is the backend.", "DESIGN.md section 3 C04"),
+ "C08": ("exploration", "object-identity probes through a path-bound backend after every step of model-guided BFS and PRNG rename/unlink sequences; model-judged fencing; path-tree consistency hook",
+         "A backend whose handles resolve a remembered path at every call (updated only by Renamed) exposes inode numbers in QID.path. Breadth-first (depth 3, thorough 4, from fids on nested paths) over ~50 rename/unlink/create/walk/clone/open requests and PRNG sequences over two connections; after every step every live unfenced fid is probed (must reach the object it was bound to and the one at the model's current path), fenced fids are judged by the model (ENOENT for child walks, EINVAL otherwise, no backend call; open I/O continues), later fids on re-created names must be unfenced, Trename/Tremove must use the current name (the backend acts on what it is told); VerifTreeCheck after each step. Half of the runs use a backend that removes non-empty directories so that fids strictly below an unlinked path exist.",
+         "Trusts memfs' localfs-like path semantics and the model's prefix rewriting; getattr on fenced fids and readdir on fenced open directories are don't-care.", "DESIGN.md section 3 C08"),
+ "C15": ("fault_enumeration", "exhaustive enumeration of fault indices (error and panic at every backend call) over base sequences, judged by the session model, fid probes, a second connection and the lifecycle monitor",
+         "For each base sequence the fault-free run counts backend calls c; the sequence is re-run with the fault at every index 1..c as an error (12 error shapes rotating) and as a panic. Faulted request -> Rlerror(errno) / EFAULT; after an error the model keeps judging every reply and the fid table is probed after every step (request had no effect; clunk/remove still unbind); a second connection is served after every step; afterwards walks over the same paths from another connection must be answered (lock leaks -> decided by quiescence); when the connections end every handle must have been closed exactly once, never used after Close.",
+         "Faults are applied before the backend mutates anything; after a panic only liveness is demanded; teardown-time faults are not injected.", "DESIGN.md section 3 C15"),
 }
 
 PENDING = "check under construction in this round (DESIGN.md section 3); will be claimed once its monitor is committed and silent on the repaired tree"
